@@ -3,6 +3,8 @@ use crate::report::Opts;
 mod c01;
 mod c02;
 mod c09;
+mod c10;
+mod c10_conn;
 mod c18;
 
 pub fn run(opts: &Opts) -> i32 {
@@ -10,6 +12,7 @@ pub fn run(opts: &Opts) -> i32 {
         "C01" => c01::run(opts),
         "C02" => c02::run(opts),
         "C09" => c09::run(opts),
+        "C10" => c10::run(opts),
         "C18" => c18::run(opts),
         other => {
             println!("INCONCLUSIVE: no check registered for {other}");
